@@ -91,7 +91,7 @@ has time exactly `t + EXCHANGE_LIFETIME` — not earlier, however many copies ar
 (copies do not restart or shorten the lifetime), and not later. -/
 theorem C04_expiry_exactly_at_lifetime (s : State) (hK : KInv s) (hs : s.shutMsg = false)
     (R : Remote) (mcl : Bool) (w : Wire) (t : Nat)
-    (hreq : isRequest w.code = true) (hnew : isDup s R w = false)
+    (hreq : dedupable w = true) (hnew : isDup s R w = false)
     (es : List TEv) (hno : ∀ e ∈ es, e.ev ≠ .fireExpire R w.mid) (fuel bound : Nat) :
     ∀ e ∈ (advance fuel (run s (⟨t, .recv R mcl w⟩ :: es)).1 bound).2.2,
       e.ev = .fireExpire R w.mid → e.time = t + s.cfg.exchangeLifetime := by
@@ -121,7 +121,7 @@ arbitrary (they may contain any number of other copies).  Then what this copy co
 output of the run is exactly: the stored reply again, to `R`, if the copy is confirmable and a
 reply (ACK or RST, `C04_reply_is_what_was_sent`) has been sent; nothing otherwise. -/
 theorem C04_copies_only_repeat (s : State) (R : Remote) (x : Nat) (w : Wire) (pre post : List TEv)
-    (t : Nat) (mcl : Bool) (h : HasEntry s R w.mid x) (hreq : isRequest w.code = true)
+    (t : Nat) (mcl : Bool) (h : HasEntry s R w.mid x) (hreq : dedupable w = true)
     (hno : ∀ e ∈ pre, e.ev ≠ .fireExpire R w.mid) :
     let s' := (run s pre).1
     let e : TEv := ⟨t, .recv R mcl w⟩
